@@ -22,6 +22,18 @@ impl<'a> Parser<'a> {
         &mut self,
         len: usize,
     ) -> Result<<IT as BitValue>::ValueType, RtcmError> {
+        #[cfg(all(rtcm_rs_verif, feature = "std"))]
+        if self.data.len() * 8 < self.offset + len {
+            crate::verif::sink::record::<u8>(
+                "parse",
+                core::any::type_name::<IT>(),
+                len,
+                self.offset,
+                self.data.len() * 8,
+                false,
+                None,
+            );
+        }
         if self.data.len() * 8 < self.offset + len {
             Err(RtcmError::BufferOverflow)
         } else {
@@ -60,11 +72,31 @@ impl<'a> Parser<'a> {
                 };
             }
             self.offset += len;
+            #[cfg(all(rtcm_rs_verif, feature = "std"))]
+            crate::verif::sink::record(
+                "parse",
+                core::any::type_name::<IT>(),
+                len,
+                self.offset - len,
+                self.data.len() * 8,
+                true,
+                Some(&<IT as BitValue>::sign_fix(val, len)),
+            );
             Ok(<IT as BitValue>::sign_fix(val, len))
         }
     }
     #[allow(unused)]
     pub fn consume_bits(&mut self, len: usize) {
+        #[cfg(all(rtcm_rs_verif, feature = "std"))]
+        crate::verif::sink::record::<u8>(
+            "consume",
+            "",
+            len,
+            self.offset,
+            self.data.len() * 8,
+            true,
+            None,
+        );
         self.offset += len;
     }
 }
